@@ -299,11 +299,13 @@ class CaptureHull:
         self.mod = C
         self.orig = C.ConvexHull
         self.rec = []
+        self.points = []
         rec, orig = self.rec, self.orig
 
         def wrapper(points, *a, **k):
             hull = orig(points, *a, **k)
             rec.append([int(v) for v in hull.vertices])
+            self.points.append(np.array(points, dtype=float, copy=True))
             return hull
         C.ConvexHull = wrapper
         return self
@@ -323,6 +325,9 @@ def gen_x(rng, n, kind):
 def corr_rubberband(ctx):
     rng = np.random.default_rng(ctx.seed + 1403)
     lits = []
+    pts_ok = True
+    ob_pts = 'correspondence:rubberband-qhull-input==column_stack((x,y))(exact)'
+    ctx.obligations.append(ob_pts)
     for c in range(ctx.n(60, 300)):
         n = int(rng.integers(3, 60))
         segs = 1 if c % 3 else int(rng.integers(1, max(2, n // 3 + 1)))
@@ -339,6 +344,13 @@ def corr_rubberband(ctx):
         if len(ch.rec) != segs:
             ctx.broke('correspondence:rubberband-capture', f'{len(ch.rec)} hulls for {segs} segments')
             continue
+        for i, pts in enumerate(ch.points):
+            want = np.column_stack((x[edges[i]:edges[i + 1]], y[edges[i]:edges[i + 1]]))
+            if pts.shape != want.shape or not np.array_equal(pts, want):
+                pts_ok = False
+                ctx.fail('rubberband:hull-points', 'rubberband hands qhull points that are not column_stack((x, y)) of the segment '
+                         '(the hull of other points is not the hull of the data)',
+                         {'method': 'rubberband', 'y': y.tolist(), 'x': x.tolist(), 'shift': 1.0, 'segments': segs})
         mask = np.flatnonzero(params['mask'])
         segl = '[' + '; '.join(f'({int(edges[i])}, {zlist(v)})' for i, v in enumerate(ch.rec)) + ']'
         lits.append(f'({segl}, {zlist(mask)})')
@@ -346,10 +358,14 @@ def corr_rubberband(ctx):
     okdef = """Definition subset (a b : list Z) : bool := forallb (fun x => existsb (Z.eqb x) b) a.
 Definition ok (c : list (Z * list Z) * list Z) : bool :=
   let '(segs, mask) := c in
-  let sel := flat_map (fun ov => map (Z.add (fst ov)) (rb_select (snd ov))) segs in
+  let sel := flat_map (fun ov => map (Z.add (fst ov)) (rb_select_off rb_max_offset (snd ov))) segs in
   subset sel mask && subset mask sel."""
+    if pts_ok:
+        ctx.discharged.append(ob_pts)
+    else:
+        ctx.broke(ob_pts, 'the point array handed to ConvexHull differs from column_stack((x, y))')
     return run_cases(ctx, 'correspondence:rubberband-vertex-selection==mask(qhull vertices captured)',
-                     'rb', HEAD_Z, 'list (Z * list Z) * list Z', okdef, lits, per=400)
+                     'rb', HEAD_Z.replace('C14.Model.', 'C14.Model gen.GenRubber.'), 'list (Z * list Z) * list Z', okdef, lits, per=400)
 
 
 # ------------------------------------------------------------------------------------------------
@@ -428,7 +444,12 @@ def oracle_one(ctx, case):
                      f'(max diff {float(np.max(np.abs(shifted - base - c))):.6g})', case)
     elif meth == 'rubberband':
         x = np.array(case['x'], dtype=float)
-        base, params = quiet(fitter(x).rubberband, y)
+        with CaptureHull() as ch:
+            base, params = quiet(fitter(x).rubberband, y, segments=case.get('segments', 1))
+        if case.get('segments', 1) == 1 and (len(ch.points) != 1 or not np.array_equal(ch.points[0], np.column_stack((x, y)))):
+            ctx.fail('rubberband:hull-points', 'rubberband hands qhull points that are not column_stack((x, y))', case)
+        if case.get('segments', 1) != 1:
+            return len(ctx.violations) + len(ctx.known_hit) - before
         mask = np.asarray(params['mask'])
         tol = 1e-9 * scale
         if base.shape != y.shape:
@@ -527,14 +548,15 @@ def run(ctx):
     ctx.trusted += [
         'scipy.ndimage.grey_erosion/grey_dilation/grey_opening (C code): modelled by C14/Model.v (reflect index map + window min/max), '
         'sampled exactly on integer data on every run, not verified',
-        'qhull (scipy.spatial.ConvexHull): counter-clockwise vertex order is a hypothesis of C14_rubberband_*; np.interp; pad_edges '
+        'qhull (scipy.spatial.ConvexHull): its contract (counter-clockwise, containing, strictly convex, vertices are data points) is the hypothesis of '
+        'C14_rubberband_lower_hull, sampled by the oracle (exact-rational lower hull); np.interp modelled as piecewise-linear interpolation; pad_edges '
         '(the padded array enters the snip model as an input; only "data sits in the middle" is used by C14_snip_le)',
         'IEEE: the order theorems hold for every total order; binary64 <= restricted to non-NaN values is one (not proved in Coq); '
         'the shift theorems for mor/snip are over exact rationals, the float statement is tested with a tolerance',
     ]
     ctx.gate()
-    ctx.translate(['GenSnip'])
-    ok = ctx.build_props(extra=['C14/Float.vo', 'gen/GenSnip.vo'])
+    ctx.translate(['GenSnip', 'GenRubber'])
+    ok = ctx.build_props(extra=['C14/Float.vo', 'gen/GenSnip.vo', 'gen/GenRubber.vo'])
     good = True
     if ok:
         import traceback
